@@ -83,7 +83,7 @@ def generate(ctx):
 # the stream ties the offset-faithful models of EditWalk2.v (reads, slices, early returns, Err vs panic) to the code.
 # The code allocates `ArrayBuilder::new(count)` / `VecDeque::with_capacity(count)` with counts read from the buffer, so
 # a mutation never produces a large count on purpose: bytes are changed to 0..3 or to a tag byte only, and byte 1 of
-# the document header is left alone.
+# the document header is left alone (no `abort:` outcome was ever observed with these mutations).
 EDIT2_TAG_BYTES = [0x80, 0x40, 0x20, 0x60, 0x00, 0x10, 0x30, 0x50]
 
 
@@ -110,8 +110,9 @@ def edit2_malformed(ctx):
         we = gen.hexarg(gen.enc(w))
         for m in edit2_mutations(r, e):
             h = gen.hexarg(m)
-            ctx.add('strip_nulls %s' % h, kind='malformed')
-            ctx.add('delete_by_keypath %s %s' % (h, common.keypath_text(r.choice(kps))), kind='malformed')
+            pre = r.choice(['', '', '', '@c0ffee'])            # a non-empty caller buffer now and then
+            ctx.add('strip_nulls%s %s' % (pre, h), kind='malformed')
+            ctx.add('delete_by_keypath%s %s %s' % (pre, h, common.keypath_text(r.choice(kps))), kind='malformed')
             sub = r.sample(ks, min(len(ks), r.choice([0, 1, 2])))
             ctx.add('%s %s %s' % (r.choice(['object_delete', 'object_pick']), h, gen.hexlist(sub)), kind='malformed')
             k = r.choice(ks)
@@ -143,14 +144,6 @@ def edit2_malformed(ctx):
                 ctx.add('object_insert %s %s %s %d' % (h, gen.hexarg(k), gen.hexarg(gen.enc(one)), upd), kind='malformed')
             ctx.add('object_delete %s %s' % (h, gen.hexlist([k])), kind='malformed')
             ctx.add('object_pick %s %s' % (h, gen.hexlist([k, b'b'])), kind='malformed')
-
-# outcome `abort:<sig>` on the implementation side of a malformed case = the allocator gave up on a count read from the
-# corrupt buffer; the property quantifies over valid inputs only, such a case is not judged ("skipped: allocation")
-def edit2_skip(ctx, c, io, mo):
-    if c.kind == 'malformed' and (io.startswith('abort:') or io == 'missing'):
-        ctx.count('skipped_allocation', c.line.split(' ', 1)[0])
-        return True
-    return False
 # ---- END edit2 ----
 
 
